@@ -211,7 +211,9 @@ func C11(r *core.Report) {
 		"R1 for every struct type of ledger.ipldsch (the root copy and the embedded copy must be identical) the decoder reads tuple index i into the i-th field of the schema and of the Go struct, a field is required (absence -> error) exactly when the schema does not mark it optional, nullable fields are converted only under a nil guard (or by a nil-tolerant helper) so that null means absent, and the element decoder matches the field type (Int, [Link], Link, bytes, DataFrame/struct); " +
 		"R2 kind discrimination - each UnmarshalCBOR rejects a kind other than its own constant right after reading it, the seven constants are pairwise distinct and equal the iplddecoders.Kind values, each fast decoder re-checks the kind, and DecodeAny dispatches each of the seven kinds to its own decoder; " +
 		"R3 MarshalCBOR writes each field at the index UnmarshalCBOR reads it from; presence accessors (HasX/GetX) depend only on nil-ness. " +
+		"R4 no cbor.DecOptions literal in the decoder packages lowers MaxArrayElements / MaxMapPairs / MaxNestedLevels below the library defaults (the fast decoders must accept every list length the reference decoder accepts). " +
 		"Not decided: integer sign/overflow, list edge cases, byte-level equality with the bindnode decoder."
+	c11DecoderLimits(r)
 	p := r.Prog
 	schema, err := parseSchema(filepath.Join(p.RepoDir, "ledger.ipldsch"))
 	if err != nil {
@@ -633,4 +635,63 @@ func c11PresenceAccessors(r *core.Report) {
 		})
 		r.Check(ok, rule, f.Key+"#presence-is-nilness", posP(r, f.Pos()), "presence depends only on the pointers being non-nil", "presence of an optional field depends on its value ("+why+"): a legitimately stored value (e.g. 0) is reported absent, so e.g. a recorded checksum of 0 is not verified")
 	}
+}
+
+// c11DecoderLimits (C11.R4): the fast decoders must accept every node the schema-driven decoder accepts; a decoding mode
+// with element / nesting limits below the cbor library's defaults makes them reject long (but legal) lists that the
+// reference decoder still reads. Every cbor.DecOptions literal in the decoder packages leaves those limits at their
+// default (field absent or 0) or raises them.
+func c11DecoderLimits(r *core.Report) {
+	const rule = "C11.R4"
+	p := r.Prog
+	defaults := map[string]int64{"MaxArrayElements": 131072, "MaxMapPairs": 131072, "MaxNestedLevels": 32}
+	n := 0
+	for _, pk := range []string{"ipld/ipldbindcode", "iplddecoders"} {
+		pkg := p.Pkg(pk)
+		if pkg == nil {
+			r.Undecided(rule, "anchor:"+pk, "", "package not found")
+			continue
+		}
+		info := pkg.TypesInfo
+		for _, file := range pkg.Syntax {
+			if strings.HasSuffix(p.Fset.Position(file.Pos()).Filename, "_test.go") {
+				continue
+			}
+			ast.Inspect(file, func(m ast.Node) bool {
+				cl, ok := m.(*ast.CompositeLit)
+				if !ok {
+					return true
+				}
+				t := info.TypeOf(cl)
+				if t == nil || !strings.HasSuffix(t.String(), "fxamacker/cbor/v2.DecOptions") {
+					return true
+				}
+				n++
+				k := fmt.Sprintf("%s#DecOptions@%d", pk, n)
+				bad := ""
+				for _, el := range cl.Elts {
+					kv, ok := el.(*ast.KeyValueExpr)
+					if !ok {
+						continue
+					}
+					name := core.ExprStr(kv.Key)
+					def, limited := defaults[name]
+					if !limited {
+						continue
+					}
+					v, isConst := core.ConstInt(info, kv.Value)
+					if !isConst {
+						bad = name + " is not a constant"
+					} else if v != 0 && v < def {
+						bad = fmt.Sprintf("%s = %d is below the library default %d", name, v, def)
+					}
+				}
+				r.Check(bad == "", rule, k, pos(r, cl), "the decoding mode does not lower the element / nesting limits",
+					"the fast decoders use a decoding mode whose "+bad+": nodes with long lists that the schema-driven decoder accepts are rejected")
+				return true
+			})
+		}
+	}
+	// every decoder construction in UnmarshalCBOR goes through the default mode or a checked mode (nothing else to decide)
+	r.OK(rule, "decoder-packages-scanned", "", fmt.Sprintf("%d cbor.DecOptions literals in the decoder packages", n))
 }
